@@ -38,7 +38,11 @@ tvars == <<l, st, sid>>
 Log == ndJsonDeserialize(IOEnv.TRACE)
 N == Len(Log)
 LockMode == Log[1].mode = "lock"
-MaxId == Log[1].maxid
+(* the id range of the file (largest of its executions; lock-mode files are
+   homogeneous, which TNext asserts) *)
+MaxId == LET R == {i \in 1..N : Log[i].e = "Reset"}
+             m == CHOOSE i \in R : \A j \in R : Log[j].maxid <= Log[i].maxid
+         IN Log[m].maxid
 Ids == 1..MaxId
 TraceTimers == IF LockMode THEN Ids ELSE {1}
 
@@ -171,10 +175,14 @@ TNext ==
   /\ l <= N
   /\ l' = l + 1
   /\ IF Log[l].e = "Reset"
-     THEN st' = StInit /\ sid' = Log[l].id
+     THEN /\ Assert(~LockMode \/ Log[l].maxid = MaxId, "lock-mode trace file mixes id ranges")
+          /\ st' = StInit /\ sid' = Log[l].id
      ELSE st' = Step(st, Log[l], l, sid) /\ sid' = sid
 
 TSpec == TInit /\ [][TNext]_tvars
+(* the line counter identifies a state: TLC fingerprints only this (the
+   monitor functions have up to 20 000 entries) *)
+ViewL == l
 (* violated <=> the whole trace was consumed *)
 NotDone == l <= N
 =============================================================================
